@@ -362,6 +362,9 @@ func runClientScenario(t *testing.T, sc *cliScenario, pickFn func(int) int) *cli
 					if len(ms) > 1 || strings.Contains(op.Arg2, "arr") {
 						msg = "[" + strings.Join(ms, ",") + "]"
 					}
+					if strings.Contains(op.Arg2, "pad") { // blanks around the message, as a pretty-printing peer writes them
+						msg = " \r\n\t" + msg + "\n"
+					}
 					r.logf("peer-send %s", msg)
 					r.peer.Send([]byte(msg))
 					if strings.Contains(op.Arg2, "dup") {
